@@ -406,10 +406,29 @@ def no_realloc(ctx, taint, wiping_adts):
                     capp = ilen.ival(cap)
                     total = {}
                     for e, nest in zip(pushes, per_push):
-                        if e['decl'].endswith('::push'):
+                        # a fill performed inside (nested) closures handed to for_each / map: the iterators they are applied to are part of
+                        # the loop nest; terms of the closure bodies are rewritten into this body's vocabulary
+                        nest = list(nest)
+                        b_cur, e_cur, lift = b, e, (lambda t: t)
+                        from bpsa.terms import mk_elem
+                        while e_cur['kind'] == 'closure':
+                            cb_ = e_cur['cbody']
+                            it_ = ctx.eng.applied_to(b_cur, e_cur['bb'], e_cur['closure_local']) if e_cur.get('closure_local') is not None else None
+                            if it_ is None:
+                                raise ilen.NoLen('closure applied to an unknown iterator')
+                            lit = lift(it_)
+                            nest.append(lit)
+                            env_ = {('upvar', cb_.key, j): lift(ctx.eng.operand(b_cur, e_cur['bb'], e_cur['idx'], o)) for j, o in enumerate(e_cur['captures'])}
+                            env_[('param', cb_.key, 2)] = mk_elem(ctx.eng, lit)
+                            lift = (lambda env_: (lambda t: ctx.eng.subst(t, env_, ())))(env_)
+                            b_cur, e_cur = cb_, e_cur['inner']
+                            for lp_ in ctx.enclosing_loops(b_cur, e_cur['bb']):
+                                if lp_.iter_term is not None:
+                                    nest.append(lift(lp_.iter_term))
+                        if e_cur['decl'].endswith('::push'):
                             items = ilen.const(1)
                         else:
-                            et = ctx.eng.event_term(b, e)
+                            et = lift(ctx.eng.event_term(b_cur, e_cur))
                             items = ilen.icount(et[3][0])
                         for itb in nest:
                             z = itb
